@@ -61,6 +61,11 @@ pub struct SchedCfg {
     pub stall: Option<Stall>,
     pub hash_seed: u64,
     pub step_cap: u64,
+    /// 0 = never; n = a task about to acquire one of zbus's async locks gives way first with probability 1/n
+    /// (a preemption point at every lock acquisition: what a multi-threaded executor adds to task-poll
+    /// granularity)
+    #[serde(default)]
+    pub lock_yield: u8,
 }
 
 impl SchedCfg {
@@ -85,6 +90,7 @@ impl SchedCfg {
             stall,
             hash_seed: rng.next_u64(),
             step_cap: 200_000,
+            lock_yield: *rng.pick(&[0u8, 0, 2, 4, 8]),
         }
     }
 
@@ -95,6 +101,7 @@ impl SchedCfg {
             stall: None,
             hash_seed: 0,
             step_cap: 200_000,
+            lock_yield: 0,
         }
     }
 }
@@ -174,6 +181,7 @@ struct State {
 
     steps: u64,
     step_cap: u64,
+    lock_yield: u8,
     hash: Fnv,
     record: bool,
     log: Vec<String>,
@@ -282,6 +290,7 @@ impl World {
                 last_ran: None,
                 steps: 0,
                 step_cap: cfg.step_cap,
+                lock_yield: cfg.lock_yield,
                 hash: Fnv::default(),
                 record,
                 log: vec![],
@@ -726,6 +735,20 @@ impl zbus::verif::Sim for Shared {
         }
         let shared = self.me.upgrade().expect("world gone");
         Box::pin(Sleep { shared, deadline: now + dur.as_nanos() as u64, slot: None })
+    }
+
+    fn lock_yield(&self, site: &'static str) -> bool {
+        let mut st = self.st.lock().unwrap();
+        let n = st.lock_yield as usize;
+        if n < 2 {
+            return false;
+        }
+        let y = st.choose("lockyield", n) == 1;
+        if y {
+            *st.counters.entry("fault.yield_before_lock").or_insert(0) += 1;
+            st.log_with(|| format!("yield before {site} lock"));
+        }
+        y
     }
 
     fn sched_point(&self, site: &'static str) {
